@@ -7,6 +7,7 @@ import subprocess
 import tempfile
 import time
 
+import threading
 import rsx
 import vgen
 import expand
@@ -74,6 +75,7 @@ class UnitResult:
 
 
 _SOURCES = {}
+_GEN_LOCK = threading.Lock()
 
 
 def load_sources(which=('core', 'fpdec', 'macros'), features=()):
@@ -111,14 +113,15 @@ def run_unit(unit, mode, sources, rlimit=None, extra_args=(), keep=True, tag='')
     res.unit = unit.name
     res.mode = mode
     t0 = time.time()
-    vgen.RULE_COUNTS.clear()
-    try:
-        text, linemap, meta = unit.generate(sources, mode)
-    except rsx.AnchorLost as ex:
-        res.anchor_lost = str(ex)
-        res.wall_s = time.time() - t0
-        return res
-    res.rule_counts = dict(vgen.RULE_COUNTS)
+    with _GEN_LOCK:
+        vgen.RULE_COUNTS.clear()
+        try:
+            text, linemap, meta = unit.generate(sources, mode)
+        except rsx.AnchorLost as ex:
+            res.anchor_lost = str(ex)
+            res.wall_s = time.time() - t0
+            return res
+        res.rule_counts = dict(vgen.RULE_COUNTS)
     os.makedirs(GEN, exist_ok=True)
     path = os.path.join(GEN, '%s%s_%s.rs' % (unit.name, tag, mode))
     with open(path, 'w') as f:
